@@ -150,6 +150,8 @@ def run(ctx):
                     ctx.fail('setitem-not-written-through', key, expected=o['refall']['data'][:64], observed=o['raw'][:64])
             if 'leak' in o and o['leak'] != [0, 0]:
                 ctx.fail('fd-or-map-leak', key, observed=o['leak'])
+            if o.get('rawsame') is False:
+                ctx.fail('raw-file-differs-after:' + acc['k'], key, observed='arrayvalues.bin is not the reference bytes')
         fin = ob[-1]
         if not fin['survive']:
             ctx.fail('returned-array-changed-after-file-removed', key0, observed=fin)
